@@ -194,7 +194,7 @@ def run(ctx):
             elif rng.random() < 0.1:
                 x = g.deep(rng.randint(2, 40))
             else:
-                x = g.string(rng.choice([1, 1, 2, 3]), rng.choice([10, 40, 150, 600]))
+                x = g.string(rng.choice([1, 1, 2, 3, 3, 12, 40]), rng.choice([10, 40, 150, 600]) if rng.random() < 0.8 else 8)
             if j.one(x, "G2", flags_too=True) is not None:
                 ctx.count("g2.compared")
 
